@@ -22,8 +22,11 @@ from ..vloop import virtual_loop
 
 PID = "C14"
 
-# (power, group): distinct powers identify requests
+# (power, group); a request is identified by its position in the list (the Request object the probe receives is
+# mapped back to it), so powers may repeat
 REQS = {
+    "rep": [(100, (1,)), (200, (1,)), (100, (1,)), (300, (2,))],
+    "rep2": [(100, (1,)), (200, (1,)), (100, (1,)), (200, (1,)), (100, (1,))],
     "q": [(100, (1,)), (200, (1,)), (300, (2,)), (400, (1,))],
     "t": [(100, (1,)), (200, (1,)), (300, (2,)), (400, (1,)), (500, (2,)), (600, (1,))],
     "q2": [(100, (1,)), (200, (1,)), (300, (1,)), (400, (2,)), (500, (2,))],
@@ -36,6 +39,7 @@ class ProbeManager:
     current: "ProbeManager | None" = None
     chooser: Chooser | None = None
     instant_modes = False
+    ident = None  # Request object -> identity (set by the scenario)
 
     def __init__(self, *a, **k):
         ProbeManager.current = self
@@ -55,7 +59,7 @@ class ProbeManager:
 
     async def distribute_power(self, request):
         key = frozenset(request.component_ids)
-        w = request.power.as_watts()
+        w = ProbeManager.ident(request)
         if key in self.active:
             self.viol.append(
                 ("concurrent", {"group": sorted(key), "in_flight": self.calls[self.active[key]]["w"], "started": w})
@@ -106,6 +110,17 @@ def make_scenario(cfg: str, instant: bool):
                 loop.settle()
                 m = ProbeManager.current
                 sender = req.new_sender()
+                objs = [Request(power=Power.from_watts(p), component_ids=set(ids)) for p, ids in reqs]
+                by_id = {id(o): k for k, o in enumerate(objs)}
+
+                def ident(r):
+                    k = by_id.get(id(r))
+                    if k is None:  # a copy: the latest issued request with the same content
+                        k = max((j for j, o in enumerate(objs[:sent]) if o.power == r.power and o.component_ids == r.component_ids),
+                                default=-1)
+                    return float(k + 1)
+
+                ProbeManager.ident = ident
                 sent = 0
                 sent_epoch: dict[float, int] = {}
                 log = []
@@ -129,10 +144,8 @@ def make_scenario(cfg: str, instant: bool):
                         p, ids = reqs[e[1]]
                         if frozenset(ids) in m.active:
                             coalesced = True
-                        loop.create_task(
-                            sender.send(Request(power=Power.from_watts(p), component_ids=set(ids)))
-                        )
-                        sent_epoch[float(p)] = m.epoch
+                        loop.create_task(sender.send(objs[e[1]]))
+                        sent_epoch[float(e[1] + 1)] = m.epoch
                         sent += 1
                     elif e[0] == "ok":
                         m.calls[e[1]]["state"] = "done"
@@ -145,8 +158,8 @@ def make_scenario(cfg: str, instant: bool):
                     # (c) an idle group has started its most recent request
                     m.epoch += 1
                     last = {}
-                    for p, ids in reqs[:sent]:
-                        last[frozenset(ids)] = float(p)
+                    for k, (p, ids) in enumerate(reqs[:sent]):
+                        last[frozenset(ids)] = float(k + 1)
                     started = collections.defaultdict(list)
                     for c in m.calls:
                         started[c["group"]].append(c["w"])
@@ -182,8 +195,8 @@ def make_scenario(cfg: str, instant: bool):
                 viol.extend(m.viol)
                 obs.clauses["never_concurrent"] = len(m.calls)
                 issued = collections.defaultdict(list)
-                for p, ids in reqs:
-                    issued[frozenset(ids)].append(float(p))
+                for k, (p, ids) in enumerate(reqs):
+                    issued[frozenset(ids)].append(float(k + 1))
                 started = collections.defaultdict(list)
                 for c in m.calls:
                     started[c["group"]].append(c)
@@ -241,9 +254,9 @@ def run(tier: str, seed: int, workers: int):
 
     acc = Acc()
     plans = (
-        [("q", False, 2), ("q", True, 1), ("q2", False, 1)]
+        [("q", False, 2), ("q", True, 1), ("q2", False, 1), ("rep", False, 1)]
         if tier == "quick"
-        else [("t", False, 2), ("q", True, 2), ("q2", True, 1), ("t", True, 1)]
+        else [("t", False, 2), ("q", True, 2), ("q2", True, 1), ("t", True, 1), ("rep", True, 2), ("rep2", False, 2)]
     )
     bounds = {}
     for cfg, instant, bound in plans:
@@ -264,7 +277,9 @@ def run(tier: str, seed: int, workers: int):
         "assumptions": [
             "BatteryManager replaced by a probe manager from the harness (power_distributing.BatteryManager)",
             "requests are delivered through a real frequenz.channels Broadcast; asyncio FIFO scheduling is kept",
-            "component groups {1} and {2}; request count and deviation bound as listed in bounds_completed",
+            "component groups {1} and {2}; request count and deviation bound as listed in bounds_completed; requests are identified by "
+            "their position in the issue order (not by their power), and the plans 'rep' / 'rep2' repeat a power so that a request "
+            "can equal the one in flight while a different one is pending",
         ],
         "exhaustive": True,
         "bounds": bounds,
